@@ -203,6 +203,20 @@ func runBatch(p *e2e.Pair, sc *scenario, from, to int) *e2e.Failure {
 		}
 		return "target"
 	}
+	if sc.Mode == "refused-opens" {
+		for i := from; i < to; i++ {
+			if i%10 == 0 { // an ordinary connection now and then: the session itself stays in use
+				if f := oneConn(p, sc.Seed*100000+int64(i), "app"); f != nil {
+					return f
+				}
+				continue
+			}
+			if f := refusedOpen(p); f != nil {
+				return f
+			}
+		}
+		return nil
+	}
 	if sc.Mode == "overlap" || sc.Mode == "mixed" {
 		width := 8
 		for i := from; i < to; i += width {
@@ -326,7 +340,38 @@ func burst(p *e2e.Pair, n int, seed int64) (served int, f *e2e.Failure) {
 
 func startPair(sc *scenario) (*e2e.Pair, error) {
 	relay := sc.Kind == "end" && sc.Mode != "client-shutdown"
+	if sc.Mode == "refused-opens" {
+		// a second listener asks for a channel the server does not offer: every connection to it is refused
+		return e2e.Start(e2e.Options{Carrier: sc.Carrier, Channels: []e2e.ChanSpec{{Name: "echo"}, {Name: "chx"}},
+			ListenerNames: map[string]string{"chx": "not-offered-by-the-server"}})
+	}
 	return e2e.Start(e2e.Options{Carrier: sc.Carrier, WithRelay: relay})
+}
+
+// refusedOpen makes one local connection for a channel the server refuses and waits until it is terminated.
+func refusedOpen(p *e2e.Pair) *e2e.Failure {
+	c, err := p.Dial("chx")
+	if err != nil {
+		return &e2e.Failure{Kind: "dial-failed", Info: map[string]interface{}{"err": err.Error()}}
+	}
+	defer c.Close()
+	c.Write([]byte("hello?"))
+	gone := e2e.Go(func() {
+		b := make([]byte, 64)
+		for {
+			if _, e := c.Read(b); e != nil {
+				return
+			}
+		}
+	})
+	switch e2e.Wait(gone) {
+	case e2e.Stalled:
+		return &e2e.Failure{Kind: "refused-connection-never-terminated"}
+	case e2e.Inconclusive:
+		return &e2e.Failure{Kind: "busy", Inconclusive: true}
+	}
+	e2e.Bump(1)
+	return nil
 }
 
 func describe(p probe) map[string]interface{} {
@@ -576,8 +621,8 @@ func scenarios(rec *vcommon.Rec) []*scenario {
 		out = append(out, &sc)
 	}
 	for _, c := range carriers {
-		for _, m := range []string{"seq-app", "seq-target", "overlap", "mixed"} {
-			if !rec.Thorough() && (m == "mixed") && c != "tcp" {
+		for _, m := range []string{"seq-app", "seq-target", "overlap", "mixed", "refused-opens"} {
+			if !rec.Thorough() && (m == "mixed" || m == "refused-opens") && c != "tcp" && !(m == "refused-opens" && c == "ws") {
 				continue
 			}
 			add(scenario{Kind: "growth", Carrier: c, Mode: m, N1: n1, N2: n2})
